@@ -27,11 +27,13 @@ theorem stashRest_buf (p : Parser) (s : Bool) : (stashRest p s).1.buf = p.buf :=
   · rfl
   · split <;> rfl
 
-theorem stashRest_bix (p : Parser) (s : Bool) : (stashRest p s).1.bix = p.bix := by
+/-- the buffer is used up (`BI = p->bsz`) unless the over-long rest was dropped -/
+theorem stashRest_bix (p : Parser) (s : Bool) :
+    (stashRest p s).1.bix = p.bix ∨ (stashRest p s).1.bix = p.buf.length := by
   unfold stashRest; dsimp only
   split
-  · rfl
-  · split <;> rfl
+  · exact Or.inl rfl
+  · split <;> exact Or.inr rfl
 
 theorem stashRest_stash_lt (p : Parser) (s : Bool) (h : p.stash.length < stashSize) :
     (stashRest p s).1.stash.length < stashSize := by
